@@ -34,7 +34,7 @@ Fixpoint upd {A} (k : N) (v : A) (m : map A) : map A :=
 Fixpoint del {A} (k : N) (m : map A) : map A :=
   match m with
   | [] => []
-  | (k', v') :: m' => if k =? k' then m' else (k', v') :: del k m'
+  | (k', v') :: m' => if k =? k' then del k m' else (k', v') :: del k m'
   end.
 
 Definition getd {A} (d : A) (k : N) (m : map A) : A :=
@@ -50,7 +50,10 @@ Fixpoint sadd (x : N) (s : list N) : list N :=
   end.
 
 Fixpoint sdel (x : N) (s : list N) : list N :=
-  match s with [] => [] | y :: s' => if x =? y then s' else y :: sdel x s' end.
+  match s with [] => [] | y :: s' => if x =? y then sdel x s' else y :: sdel x s' end.
+(* remove the first occurrence (multiset difference, for [is_perm]) *)
+Fixpoint rem1 (x : N) (s : list N) : list N :=
+  match s with [] => [] | y :: s' => if x =? y then s' else y :: rem1 x s' end.
 
 (* sets.InsertOrNew *)
 Definition madd (k x : N) (m : map (list N)) : map (list N) := upd k (sadd x (getd [] k m)) m.
@@ -222,7 +225,7 @@ Definition delete_ip (s : st) (ip id : N) : st :=
 Fixpoint is_perm (a b : list N) : bool :=
   match a with
   | [] => match b with [] => true | _ => false end
-  | x :: a => smem x b && is_perm a (sdel x b)
+  | x :: a => smem x b && is_perm a (rem1 x b)
   end.
 
 Definition slices_of (s : st) (h : N) : list (N * slicev) :=
